@@ -61,6 +61,7 @@ func (l *Loop) runLoop(onClose func()) {
 		case <-l.done:
 			return
 		case t := <-l.tasks:
+			verifhook.Yield("taskloop.runLoop.beforeTask")
 			t.fn(l)
 			verifhook.Yield("taskloop.runLoop.afterTask")
 			close(t.done)
